@@ -41,4 +41,35 @@ EveryBroadcastableIsKnown ==
          c == LC[q][i] IN
      \/ MirrorC(disk[p].rc, c)
      \/ (disk[p].diff.h # -1 /\ MirrorC(disk[p].diff, c))
+
+\* C05, chain-watcher layer (contractcourt/chain_watcher.go handleCommitSpend).  The node does not choose which
+\* stored commitment a confirmed transaction is resolved with: its chain watcher classifies the transaction by
+\* comparing it with what is on disk, in this order - own commitment (handleKnownLocalState), counterparty's
+\* current, counterparty's pending (handleKnownRemoteState: these pick the commitment AND the commit point),
+\* a revoked height (handlePossibleBreach), otherwise "unknown" (data-loss recovery).  On the model a
+\* transaction is identified by its owner and height.
+WatcherKey(p, who, h) ==
+  CASE who = p /\ disk[p].lc.h = h                           -> 0
+    [] who # p /\ disk[p].rc.h = h                           -> 1
+    [] who # p /\ disk[p].diff.h # -1 /\ disk[p].diff.h = h  -> 2
+    [] who # p /\ h + 1 <= Len(disk[p].revlog)               -> 3
+    [] OTHER                                                 -> 4
+WatcherCommit(p, k) == CASE k = 1 -> disk[p].rc [] OTHER -> disk[p].diff
+
+\* Whatever either party can broadcast is classified as a known unrevoked commitment, unambiguously (the current
+\* and the pending remote commitment differ in height, and neither height is in the revocation log, so the order
+\* of the watcher's tests cannot send a current/pending commitment to the breach path or vice versa), and the
+\* stored commitment the classification selects has exactly the content of the transaction.
+WatcherClassifies ==
+  bad = "none" =>
+  \A p \in Party :
+    LET q == Other(p) IN
+    /\ disk[p].diff.h # -1 => disk[p].diff.h = disk[p].rc.h + 1
+    /\ disk[p].rc.h + 1 > Len(disk[p].revlog)
+    /\ \A i \in 1..Len(LC[q]) :
+          LET c == LC[q][i]
+              k == WatcherKey(p, q, c.h) IN
+          k \in {1, 2} /\ MirrorC(WatcherCommit(p, k), c)
+    \* the commitment p itself broadcasts (what is durable: disk[p].lc) is one p holds a signature for
+    /\ \E i \in 1..Len(LC[p]) : LC[p][i].h = disk[p].lc.h /\ WatcherKey(p, p, LC[p][i].h) = 0
 =============================================================================
